@@ -11,6 +11,11 @@ LossBound(handed, rcv, slowConn, slowSpool) == Cardinality((1..handed) \ rcv) <=
 \* C06, endpoint healthy the whole time: every handed line is received or counted as slow_conn
 HealthyIdentity(handed, nreceived, slowConn) == handed = nreceived + slowConn
 
+\* C06, endpoint connected the whole time but pausing (no progress for a while, then it reads everything):
+\* every handed line is received or counted; should the relay have seen a down phase although the endpoint
+\* never closed, the lines it dropped meanwhile are counted as conn_down_no_spool
+PausedIdentity(handed, nreceived, slowConn, downNoSpool) == HealthyIdentity(handed - downNoSpool, nreceived, slowConn)
+
 \* C06, endpoint down the whole time, spooling disabled: every line is counted as conn_down_no_spool
 DownIdentity(handed, nreceived, downNoSpool) == handed = downNoSpool /\ nreceived = 0
 
